@@ -18,8 +18,8 @@ RULE = (
     "agree too; two jobs exist both as a directly created CsvPath and as a CsvPaths-managed run and must give the same lines, variables, verdict and counters; non-trivial = the history contains two different jobs; state = (job, position in history)"
 )
 BOUNDS = {
-    "quick": "35 jobs (three under non-default dialects, two on a file with blank records, two on a file whose header cells need non-idempotent cleaning, two on a one-record file): 35 fresh-process references + 17 warm-cache fresh processes; all 1,225 ordered pairs (fresh CsvPaths per job) + 289 ordered pairs of CsvPaths jobs on ONE shared instance + 1,000 triples over a 10-job subset; 6 direct-vs-managed twin pairs",
-    "thorough": "all pairs, all 42,875 triples, shared-instance triples, sequences of 4 over a 6-job subset, of 5 over 4 jobs, of 6 over 3 jobs",
+    "quick": "38 jobs (one of them aborting under validation-mode raise; two printing $.csvpath references under different dialects; three under non-default dialects, two on a file with blank records, two on a file whose header cells need non-idempotent cleaning, two on a one-record file): 38 fresh-process references + 18 warm-cache fresh processes; all 1,444 ordered pairs (fresh CsvPaths per job) + 324 ordered pairs of CsvPaths jobs on ONE shared instance + 1,000 triples over a 10-job subset; 6 direct-vs-managed twin pairs",
+    "thorough": "all pairs, all 54,872 triples, shared-instance triples, sequences of 4 over a 6-job subset, of 5 over 4 jobs, of 6 over 3 jobs",
 }
 CHUNK = 20
 BUDGET = {"quick": 600, "thorough": 3400}
@@ -77,6 +77,12 @@ JOBS = [
     # a file of exactly ONE record: the last line number is 0 (a value a cache round trip must not lose)
     {"kind": "paths", "match": '[last.nocontrib() -> @l = line_number() @t = total_lines() yes()]', "rows": [["h1", "h2"]]},
     {"kind": "path", "match": '[last.nocontrib() -> @l = line_number() @t = total_lines() yes()]', "rows": [["h1", "h2"]]},
+    # a CsvPaths job that ABORTS (validation-mode raise) after having collected two lines: what it leaves behind must not leak into
+    # the next job on the same instance
+    {"kind": "paths", "match": "[@q = add(#1, 1)]", "rows": [["7", "1"], ["8", "2"], ["9", "x"]], "vm": "raise"},
+    # prints with $.csvpath references under two different dialects (runtime data must not be shared between CsvPath instances)
+    {"kind": "path", "match": '[print("n $.csvpath.count_lines of $.csvpath.total_lines ")]', "rows": A},
+    {"kind": "path", "match": '[print("n $.csvpath.count_lines of $.csvpath.total_lines ")]', "rows": A, "dialect": [";", "'"]},
 ]
 PATHS_JOBS = [i for i, j in enumerate(JOBS) if j["kind"] == "paths"]
 SUB10 = [0, 1, 2, 3, 4, 5, 12, 14, 17, 19]
@@ -187,7 +193,8 @@ def run_job(job, fresh=False, shared=None):
         exc = None
         try:
             cp.file_manager.add_named_file(name=name, path=src)
-            cp.paths_manager.add_named_paths(name=g, paths=[f"~ id: j ~ $[*]{job['match']}"])
+            vm = f" validation-mode: {job['vm']}" if job.get("vm") else ""
+            cp.paths_manager.add_named_paths(name=g, paths=[f"~ id: j{vm} ~ $[*]{job['match']}"])
         except Exception as e:  # noqa: BLE001
             exc = e
         lines = None
